@@ -16,9 +16,10 @@ Section T.
 Variable p : pkg.
 Variable native : bool.
 Variable cutover : Z -> Z.
-Variables maxBruteForce maxLen primeRK : Z.
+Variables maxBruteForce maxLen primeRK nativeMax rtMaxLen : Z.
+Hypothesis Hcontract : nativeMax <= rtMaxLen.
 Notation lower := (lower_pkg p).
-Notation Index' := (Impl6.Index native cutover fold121 lower fold_map121 fold_map_excl121 upper_lower121 maxBruteForce maxLen primeRK p).
+Notation Index' := (Impl6.Index native cutover fold121 lower fold_map121 fold_map_excl121 upper_lower121 maxBruteForce maxLen primeRK nativeMax rtMaxLen p).
 
 Ltac by_refine H := eexists; apply H; assumption.
 
@@ -28,7 +29,7 @@ Theorem total_ss s t : wf s -> wf t ->
   total (HasPrefix fold121 lower p s t) /\ total (TrimPrefix fold121 lower p s t) /\ total (CutPrefix fold121 lower p s t) /\
   total (HasSuffix fold121 lower s t) /\ total (TrimSuffix fold121 lower s t) /\ total (CutSuffix fold121 lower s t) /\
   total (Index' s t) /\
-  total (Impl6.Contains native cutover fold121 lower fold_map121 fold_map_excl121 upper_lower121 maxBruteForce maxLen primeRK p s t) /\
+  total (Impl6.Contains native cutover fold121 lower fold_map121 fold_map_excl121 upper_lower121 maxBruteForce maxLen primeRK nativeMax rtMaxLen p s t) /\
   total (Impl7.LastIndex fold121 lower fold_map121 upper_lower121 primeRK p s t) /\
   total (Count Index' p s t) /\ total (Cut Index' p s t) /\
   total (Impl7.IndexAny native cutover fold_map121 upper_lower121 s t) /\
@@ -78,8 +79,9 @@ End T.
 Section P.
 Variable native : bool.
 Variable cutover : Z -> Z.
-Variables maxBruteForce maxLen primeRK : Z.
-Notation IndexP q := (Impl6.Index native cutover fold121 (lower_pkg q) fold_map121 fold_map_excl121 upper_lower121 maxBruteForce maxLen primeRK q).
+Variables maxBruteForce maxLen primeRK nativeMax rtMaxLen : Z.
+Hypothesis Hcontract : nativeMax <= rtMaxLen.
+Notation IndexP q := (Impl6.Index native cutover fold121 (lower_pkg q) fold_map121 fold_map_excl121 upper_lower121 maxBruteForce maxLen primeRK nativeMax rtMaxLen q).
 
 Ltac both H := rewrite (H Str), (H Byt) by assumption; reflexivity.
 
